@@ -5,6 +5,7 @@ from ..rules import rep_rules as R
 from ..rules import cache_rules as CA
 from ..rules import sibling_rules as SI
 from ..rules import misc_rules as MI
+from ..rules import fsa_rules as FS
 from ..rules.common import u1, n1
 
 COX = R.COX
@@ -22,6 +23,7 @@ def run(ctx):
               "the cosine matrix becomes an object array and every Coxeter "
               "representation constructor raises TypeError")
     ctx.do(R.rule_dual)
+    ctx.do(FS.rule_iter1, ["geometry_tools/coxeter.py"])
     ctx.do(n1, ["geometry_tools/coxeter.py"], lookup_rels=("geometry_tools/coxeter.py",))
     ctx.do(CA.rule_c2, "CoxeterGroup")
     ctx.do(CA.rule_cls1, "CoxeterGroup")
